@@ -862,6 +862,47 @@ func (g *gen) genSeq(n int) {
 	}
 }
 
+// a body of the kind whose property section carries one of its string properties twice, the second time with
+// length 0; nil for kinds without string properties
+func (g *gen) repeatedStringBody(kind string) []byte {
+	ids := map[string][]byte{"SubAck": {0x1f}, "UnsubAck": {0x1f}, "Disconnect": {0x1f, 0x1c}, "Auth": {0x15, 0x16, 0x1f},
+		"ConnAck": {0x12, 0x1f, 0x1a, 0x1c, 0x15, 0x16}, "PubAck": {0x1f}, "PubRec": {0x1f}, "PubRel": {0x1f}, "PubComp": {0x1f},
+		"Publish": {0x08, 0x09, 0x03}}[kind]
+	if ids == nil {
+		return nil
+	}
+	id := ids[g.r.Intn(len(ids))]
+	val := g.bytesN(1 + g.r.Intn(40))
+	props := append([]byte{id, 0, byte(len(val))}, val...)
+	if g.chance(0.3) {
+		props = append(props, 0x26, 0, 1, 'k', 0, 1, 'v')
+	}
+	props = append(props, id, 0, 0)
+	plen := len(props)
+	if g.chance(0.25) {
+		plen += 1 + g.r.Intn(len(val)) // claims more than is there
+	}
+	sect := append(vbEncode(uint64(plen)), props...)
+	pid := []byte{byte(g.r.Intn(256)), byte(1 + g.r.Intn(255))}
+	var tail []byte
+	if g.chance(0.5) {
+		tail = g.bytesN(g.r.Intn(3))
+	}
+	switch kind {
+	case "SubAck", "UnsubAck":
+		return append(append(pid, sect...), tail...)
+	case "Disconnect", "Auth":
+		return append([]byte{0}, sect...)
+	case "ConnAck":
+		return append([]byte{0, 0}, sect...)
+	case "PubAck", "PubRec", "PubRel", "PubComp":
+		return append(append(pid, 0), sect...)
+	case "Publish":
+		return append(append([]byte{0, 1, 't'}, sect...), tail...)
+	}
+	return nil
+}
+
 func (g *gen) mutate(b []byte) []byte {
 	out := append([]byte(nil), b...)
 	if len(out) == 0 {
@@ -901,6 +942,22 @@ func (g *gen) genMalformed(n int) {
 			continue
 		}
 		var body []byte
+		if rb := g.repeatedStringBody(kind); rb != nil && g.chance(0.12) {
+			// a string property given twice, the second time empty (what the destination held before must not
+			// leak into how far the cursor moves), optionally under a property length that claims more
+			g.emit("NOTE case=malformed why=repeated-string")
+			dkk := kind
+			if g.chance(0.5) {
+				g.emit("NEW p %s", dkk)
+			} else {
+				g.emit("ZERO p %s", dkk)
+			}
+			g.emit("DEC p %s", hxd(rb))
+			g.emit("STR p")
+			g.emit("RD x %s sched=- eofwd=0 fail=eof calls=1", hxd(reframe(f.first, rb)))
+			g.emit("STR x")
+			continue
+		}
 		switch g.r.Intn(5) {
 		case 0:
 			body = g.bytesN(g.r.Intn(12))
